@@ -264,7 +264,7 @@ Section P.
         destruct (sch _ _ _ _); [|discriminate]. now injection Hs as <-.
       + split; auto.
     - unfold restore in H. destruct Hi as [Hl Hd]. destruct (disk _ _ _ s) as [d|] eqn:Hdk; injection H as <- <- <-.
-      + split; [apply Inv_set_counts, Inv_set_tbl, Hd; reflexivity | cbn; exact Hd].
+      + split; [apply Inv_set_counts, Hd; reflexivity | cbn; exact Hd].
       + split; [exact Hl | now rewrite Hdk].
     - unfold set_samplers in H. destruct Hi as [Hl Hd]. destruct (tupdate _ _); injection H as <- <- <-;
         (split; [| exact Hd]); cbn; [apply Inv_set_tbl|]; apply Inv_set_sch, Hl.
